@@ -45,3 +45,104 @@ Proof.
   apply (rec_leaves_fuel (run ops) Hwf k (length (anns (run ops))) h (a_leaves a) (Hwf h a Ha)).
   apply Nat.lt_le_incl. apply (get_ann_lt _ _ _ Ha).
 Qed.
+
+(** * the walk computes the closure under "targets" *)
+From Coq Require Import Sorting.Sorted.
+From Stam Require Import Proofs.StoreScan.
+
+Definition leaves_of (s : store) (x : nat) : list leaf :=
+  match get_ann s x with Some an => a_leaves an | None => [] end.
+Definition step_anns (s : store) (xs : list nat) : list nat := flat_map (fun x => ann_of (leaves_of s x)) xs.
+
+Lemma reach_anns_unfold f s l : reach_anns (S f) s l = l ++ reach_anns f s (step_anns s l).
+Proof.
+  cbn [reach_anns]. f_equal. f_equal. unfold step_anns. apply flat_map_ext_in. intros x _.
+  unfold leaves_of. destruct (get_ann s x); reflexivity.
+Qed.
+
+Lemma In_ann_of x l : In x (ann_of l) <-> exists lf, In lf l /\ (match lf with LAnn y | LAnnText y _ _ _ => y = x | _ => False end).
+Proof.
+  unfold ann_of. rewrite in_flat_map. split.
+  - intros (lf & Hl & Hx). exists lf. split; [exact Hl|]. destruct lf; cbn in Hx; try contradiction; destruct Hx as [->|[]]; reflexivity.
+  - intros (lf & Hl & Hx). exists lf. split; [exact Hl|]. destruct lf; try contradiction; subst; left; reflexivity.
+Qed.
+
+Lemma flat_map_flat_map {A B C} (f : B -> list C) (g : A -> list B) l :
+  flat_map f (flat_map g l) = flat_map (fun x => flat_map f (g x)) l.
+Proof. induction l as [|x l IH]; cbn [flat_map]; [reflexivity|]. rewrite flat_map_app, IH. reflexivity. Qed.
+
+Lemma reach_In_flat {A} s : forall f (g : A -> list nat) xs y,
+  In y (reach_anns f s (flat_map g xs)) <-> exists x, In x xs /\ In y (reach_anns f s (g x)).
+Proof.
+  induction f as [|f IH]; intros g xs y.
+  - cbn [reach_anns]. apply in_flat_map.
+  - rewrite reach_anns_unfold, in_app_iff. unfold step_anns at 1. rewrite flat_map_flat_map.
+    change (flat_map (fun x => flat_map (fun x0 => ann_of (leaves_of s x0)) (g x)) xs) with (flat_map (fun x => step_anns s (g x)) xs).
+    rewrite (IH (fun x => step_anns s (g x)) xs y), in_flat_map. split.
+    + intros [(x & Hx & Hy)|(x & Hx & Hy)]; exists x; (split; [exact Hx|]); rewrite reach_anns_unfold, in_app_iff; [left|right]; exact Hy.
+    + intros (x & Hx & Hy). rewrite reach_anns_unfold, in_app_iff in Hy. destruct Hy as [Hy|Hy]; [left|right]; exists x; tauto.
+Qed.
+
+Lemma reach_In_app s f xs ys y : In y (reach_anns f s (xs ++ ys)) <-> In y (reach_anns f s xs) \/ In y (reach_anns f s ys).
+Proof.
+  pose proof (reach_In_flat s f (fun b : bool => if b then xs else ys) [true; false] y) as H.
+  cbn [flat_map] in H. rewrite app_nil_r in H. rewrite H. split.
+  - intros (b & Hb & Hy). destruct b; [left|right]; exact Hy.
+  - intros [Hy|Hy]; [exists true|exists false]; cbn; tauto.
+Qed.
+
+Lemma walk_is_closure s : wf_targets s -> forall f bound l z,
+  Forall (leaf_lt bound) l -> bound <= f ->
+  (In z (rec_leaves f s l) <-> In z (l ++ flat_map (leaves_of s) (reach_anns f s (ann_of l)))).
+Proof.
+  intros Hwf. induction f as [|f IH]; intros bound l z Hl Hb.
+  - assert (bound = 0) by lia. subst bound. cbn [rec_leaves reach_anns].
+    assert (E : ann_of l = []).
+    { destruct (ann_of l) as [|x r] eqn:E; [reflexivity|exfalso].
+      assert (Hx : In x (ann_of l)) by (rewrite E; left; reflexivity). apply In_ann_of in Hx. destruct Hx as (lf & Hin & Hm).
+      rewrite Forall_forall in Hl. specialize (Hl lf Hin). destruct lf; cbn [leaf_lt] in Hl; try contradiction; lia. }
+    rewrite E. cbn [flat_map]. rewrite app_nil_r. tauto.
+  - cbn [rec_leaves]. rewrite in_flat_map, in_app_iff, in_flat_map.
+    assert (Sub : forall x, In x (ann_of l) ->
+              (In z (rec_leaves f s (leaves_of s x)) <-> In z (leaves_of s x ++ flat_map (leaves_of s) (reach_anns f s (ann_of (leaves_of s x)))))).
+    { intros x Hx. apply In_ann_of in Hx. destruct Hx as (lf & Hin & Hm). rewrite Forall_forall in Hl. specialize (Hl lf Hin).
+      assert (Hlt : x < bound) by (destruct lf; try contradiction; subst; exact Hl).
+      apply (IH x); [|lia]. unfold leaves_of. destruct (get_ann s x) as [an|] eqn:E; [apply (Hwf x an E)|constructor]. }
+    split.
+    + intros (lf & Hin & [<-|Hz]); [left; exact Hin|]. right.
+      assert (Hx : exists x, In x (ann_of l) /\ In z (rec_leaves f s (leaves_of s x))).
+      { destruct lf; try contradiction; (eexists; split; [apply In_ann_of; eexists; split; [exact Hin|reflexivity]|]); unfold leaves_of;
+          (destruct (get_ann s _); [exact Hz|contradiction]). }
+      destruct Hx as (x & Hx & Hz'). apply (Sub x Hx) in Hz'. apply in_app_iff in Hz'.
+      rewrite reach_anns_unfold. destruct Hz' as [Hz'|Hz'].
+      * exists x. split; [apply in_app_iff; left; exact Hx|exact Hz'].
+      * apply in_flat_map in Hz'. destruct Hz' as (y & Hy & Hzy). exists y. split; [|exact Hzy].
+        apply in_app_iff. right. unfold step_anns. apply (reach_In_flat s f (fun x => ann_of (leaves_of s x)) (ann_of l) y). exists x. tauto.
+    + intros [Hin|(y & Hy & Hzy)]; [exists z; split; [exact Hin|left; reflexivity]|].
+      rewrite reach_anns_unfold, in_app_iff in Hy.
+      assert (Hx : exists x, In x (ann_of l) /\ In z (rec_leaves f s (leaves_of s x))).
+      { destruct Hy as [Hy|Hy].
+        - exists y. split; [exact Hy|]. apply (Sub y Hy). apply in_app_iff. left. exact Hzy.
+        - unfold step_anns in Hy. apply (reach_In_flat s f (fun x => ann_of (leaves_of s x)) (ann_of l) y) in Hy. destruct Hy as (x & Hx & Hy).
+          exists x. split; [exact Hx|]. apply (Sub x Hx). apply in_app_iff. right. apply in_flat_map. exists y. tauto. }
+      destruct Hx as (x & Hx & Hz). apply In_ann_of in Hx. destruct Hx as (lf & Hin & Hm). exists lf. split; [exact Hin|]. right.
+      destruct lf; try contradiction; subst; unfold leaves_of in Hz; (destruct (get_ann s _); [exact Hz|destruct f; contradiction]).
+Qed.
+
+Lemma sort_dedup_ext l l' : (forall x, In x l <-> In x l') -> sort_dedup l = sort_dedup l'.
+Proof.
+  intros H. apply sorted_ext; [apply sort_dedup_sorted|apply sort_dedup_sorted|]. intros x. rewrite !sort_dedup_In. apply H.
+Qed.
+
+(* in every reachable store the walk of the code and the closure name the same resources *)
+Theorem forward_resources_are_the_closure : forall ops h a, get_ann (run ops) h = Some a ->
+  fw_resources (run ops) a = sp_resources (run ops) a /\ fw_resources_meta (run ops) a = sp_resources_meta (run ops) a.
+Proof.
+  intros ops h a Ha. destruct (reachable_Good ops) as (_ & Hwf & _).
+  assert (Hmem : forall z, In z (all_leaves (run ops) a) <-> In z (spec_leaves (run ops) a)).
+  { intros z. unfold all_leaves, spec_leaves.
+    apply (walk_is_closure (run ops) Hwf (length (anns (run ops))) h (a_leaves a) z (Hwf h a Ha)).
+    apply Nat.lt_le_incl. apply (get_ann_lt _ _ _ Ha). }
+  unfold fw_resources, sp_resources, fw_resources_meta, sp_resources_meta.
+  split; f_equal; apply sort_dedup_ext; intros x; rewrite !in_flat_map; split; intros (lf & Hl & Hx); exists lf; (split; [apply Hmem; exact Hl|exact Hx]).
+Qed.
